@@ -1107,6 +1107,7 @@ func genC16(c *Ctx) {
 	// model correspondences on hostile inputs (Lean models proved total/bounded in Props/C16.lean)
 	c16ModelCorrespondence(c)
 	g := &c16G{r: c.R, k: c16LoadCorpus()}
+	g.extra = append(g.extra, c16ValidSyntaxCases(rand.New(rand.NewSource(c.Seed*104729+5)), c.N(1500, 15000))...)
 	_ = os.WriteFile(c.OutDir+"/warmup-lines.txt", []byte(strings.Join(c16WarmLines(), "\n")+"\n"), 0o644)
 	c.Count(fmt.Sprintf("corpus.avc.nalus=%d", len(g.k.avcNalus)))
 	c.Count(fmt.Sprintf("corpus.hevc.nalus=%d", len(g.k.hevcNalus)))
